@@ -120,9 +120,9 @@ CHECKS["C03"] = {
     "engine": "pmc-os",
     "technique": "stateless preemption-bounded exhaustive schedule enumeration of sender pipelines with instrumented leaves (value/error/stopped, inline or deferred), a manual scheduler, recording receivers and payload/allocation ledgers on the real header-only adaptors",
     "level_text": "Every schedule within the deviation bound of every pipeline of the curated set (then, let_value, let_error, when_all, when_all_vector, split, split_tuple, ensure_started, continues_on, schedule, transfer_just, start_detached, sync_wait, drop_value, drop_operation_state, require_started, unpack, unique_any_sender and depth-2 combinations), for every completion channel at every leaf and inline or deferred completion, with one or two consumers on different threads, is executed on the real code; each receiver must get exactly one signal on the denoted channel with the denoted payload, never after its operation state was destroyed; payload objects and heap blocks must be released exactly once (quarantined, poisoned blocks detect use after free).",
-    "level_note": "Sequentially consistent interleavings only; terms of depth 1-2 from a curated list rather than a generated closure; bulk is covered by C11 and the thread pool scheduler by C10; choice points at all atomics of the adaptor headers, any_sender and reference counts (F-site) plus harness points at leaf registration / firing / after start.",
+    "level_note": "Sequentially consistent interleavings only; the quick tier uses terms of depth 1-2 from a curated list; the thorough tier adds the generated closure of depth 1-2 over 12 unary adaptors (153 terms, expected completion from a reference interpreter; split | let_error does not compile with pika and is excluded); bulk is covered by C11 and the thread pool scheduler by C10; choice points at all atomics of the adaptor headers, any_sender and reference counts (F-site) plus harness points at leaf registration / firing / after start.",
     "rule": "pmc-os: pipelines x leaf channels x timing x consumer placement (data choices) x all schedules within the deviation bound",
-    "parts": [{"bin": "C03_senders"}],
+    "parts": [{"bin": "C03_senders"}, {"bin": "C03_terms", "part": "generated-terms", "tiers": ["thorough"]}],
 }
 
 CHECKS["C11"] = {
